@@ -310,6 +310,11 @@ def jobs_for(ck):
                     continue    # generated C sources include headers by their mirror-layout path
                 jobs.append((idx, spec, pl, odd, args))
                 idx += 1
+    # generators that need a build-time product and process several inputs in one call
+    for gi, spec in enumerate(pg.gendep_specs()):
+        for pl in (('root', 'allsub') if ck.thorough else (('root', 'allsub')[(gi + ck.seed) % 2],)):
+            jobs.append((idx, spec, pl, False, ()))
+            idx += 1
     # link chains deeper than the exhaustive bound: generated header two or three link levels away from its user
     for ci, spec in enumerate(pg.chain_specs()):
         for pl in (('root', 'allsub') if ck.thorough else (('root', 'allsub')[(ci + ck.seed) % 2],)):
